@@ -178,3 +178,33 @@ pub fn simpleread(args: &[String]) {
     }
     println!("{}", serde_json::Value::Array(out));
 }
+
+/// `vh roomsread --list L`: runs io::rooms::read on every entry of the list file and prints what it returned
+pub fn roomsread(args: &[String]) {
+    std::panic::set_hook(Box::new(|_| {}));
+    let mut list = None;
+    for i in 0..args.len() {
+        if args[i] == "--list" && i + 1 < args.len() {
+            list = Some(args[i + 1].clone());
+        }
+    }
+    let v: serde_json::Value = serde_json::from_str(&std::fs::read_to_string(list.unwrap()).unwrap()).unwrap();
+    let mut out = Vec::new();
+    for e in v.as_array().unwrap() {
+        let path = e["file"].as_str().unwrap().to_string();
+        let r = std::panic::catch_unwind(move || {
+            let f = std::fs::File::open(&path).unwrap();
+            match cdecao::io::rooms::read(f) {
+                Err(m) => json!({"err": m}),
+                Ok((rooms, kinds)) => json!({
+                    "rooms": rooms,
+                    "kinds": kinds.iter().map(|k| { let (n, c, q) = k.verif_fields(); json!([n, c, q]) }).collect::<Vec<_>>()}),
+            }
+        });
+        out.push(match r {
+            Ok(v) => v,
+            Err(_) => json!({"panic": true}),
+        });
+    }
+    println!("{}", serde_json::Value::Array(out));
+}
